@@ -85,7 +85,7 @@ func graphEntry[T any]() entry[T] {
 	must(g.AddEdge("sink", compose.END))
 	r, err := g.Compile(ctx)
 	must(err)
-	return entry[T]{name: "graph(stream->invoke)", f: func(in []T) (T, error) { return r.Invoke(ctx, in) }}
+	return entry[T]{name: "graph(stream->invoke)", sameAs: "internal.ConcatItems", f: func(in []T) (T, error) { return r.Invoke(ctx, in) }}
 }
 
 func must(err error) {
@@ -219,18 +219,17 @@ func toolAspects(full bool) []aspect {
 	}
 	out := []aspect{{label: "tools{}"}, {label: "tools{empty-slice}", apply: func(m *schema.Message) { m.ToolCalls = []schema.ToolCall{} }}}
 	for _, idx := range []int{-1, 0, 1} {
-		for _, id := range []string{"", "i"} {
-			for _, args := range []string{"", "a", "b"} {
-				out = append(out, toolAspect(tc(idx, id, "", "", args)))
-			}
+		for _, ia := range [][2]string{{"", ""}, {"", "a"}, {"", "b"}, {"i", "a"}} {
+			out = append(out, toolAspect(tc(idx, ia[0], "", "", ia[1])))
 		}
 	}
+	out = append(out, toolAspect(tc(0, "i", "", "", "")))
 	out = append(out,
 		toolAspect(tc(0, "j", "", "", "")), // conflicting id
 		toolAspect(tc(0, "", "", "f", "")),
 		toolAspect(tc(0, "", "", "g", "")), // conflicting function name
 		toolAspect(tc(0, "", "function", "", "")),
-		toolAspect(tc(0, "", "other", "", "")), // conflicting type
+		toolAspect(tc(0, "", "other", "", "b")), // conflicting type
 		toolAspect(tc(1, "", "", "f", "a")),
 		toolAspect(tc(0, "", "", "", "a"), tc(1, "", "", "", "b")),
 		toolAspect(tc(1, "", "", "", "a"), tc(0, "", "", "", "b")),
@@ -311,12 +310,10 @@ func extraValues(full bool) []extraVal {
 		// strings under s (and an int under s: type conflict)
 		ev(`{s:"a"}`, func() map[string]any { return map[string]any{"s": "a"} }),
 		ev(`{s:"b"}`, func() map[string]any { return map[string]any{"s": "b"} }),
-		ev(`{s:""}`, func() map[string]any { return map[string]any{"s": ""} }),
 		ev(`{s:1}`, func() map[string]any { return map[string]any{"s": 1} }),
 		// scalars
 		ev(`{i:1}`, func() map[string]any { return map[string]any{"i": 1} }),
 		ev(`{i:2}`, func() map[string]any { return map[string]any{"i": 2} }),
-		ev(`{b:true}`, func() map[string]any { return map[string]any{"b": true} }),
 		ev(`{f:1.5}`, func() map[string]any { return map[string]any{"f": 1.5} }),
 		ev(`{i:1 s:"a"}`, func() map[string]any { return map[string]any{"s": "a", "i": 1} }),
 		// untyped nil
@@ -334,18 +331,15 @@ func extraValues(full bool) []extraVal {
 		ev(`{p:(*Unreg)(nil)}`, func() map[string]any { return map[string]any{"p": (*C14Unreg)(nil)} }),
 		ev(`{p:&Unreg{1}}`, func() map[string]any { return map[string]any{"p": &C14Unreg{A: 1}} }),
 		// messages, message lists, registered type, slices
-		ev(`{g:&Message{content x}}`, func() map[string]any { return map[string]any{"g": &schema.Message{Content: "x"}} }),
 		ev(`{g:&Message{B}}`, func() map[string]any { return map[string]any{"g": listMsg("B")} }),
 		ev(`{g:(*Message)(nil)}`, func() map[string]any { return map[string]any{"g": (*schema.Message)(nil)} }),
 		ev(`{l:[]*Message{A}}`, func() map[string]any { return map[string]any{"l": []*schema.Message{listMsg("A")}} }),
-		ev(`{l:[]*Message{B}}`, func() map[string]any { return map[string]any{"l": []*schema.Message{listMsg("B")}} }),
 		ev(`{l:[]*Message{A B}}`, func() map[string]any {
 			return map[string]any{"l": []*schema.Message{listMsg("A"), listMsg("B")}}
 		}),
 		ev(`{r:Reg{p 1}}`, func() map[string]any { return map[string]any{"r": C14Reg{S: "p", N: 1}} }),
 		ev(`{r:Reg{q 2}}`, func() map[string]any { return map[string]any{"r": C14Reg{S: "q", N: 2}} }),
 		ev(`{t:[]string{a}}`, func() map[string]any { return map[string]any{"t": []string{"a"}} }),
-		ev(`{t:[]string(nil)}`, func() map[string]any { return map[string]any{"t": []string(nil)} }),
 	}
 }
 
@@ -473,9 +467,24 @@ func simpleFamily[T any](name string, model func([]T, T) []failure, maxQuick, ma
 	f := &fam[T]{name: name, entries: genericEntries[T](), model: model, maxQuick: maxQuick, maxThor: maxThor}
 	for _, mk := range vals {
 		v := mk()
-		f.syms = append(f.syms, sym[T]{label: render(v), mk: mk, absent: absent != nil && absent(v)})
+		s := sym[T]{label: shortLabel(render(v)), mk: mk, absent: absent != nil && absent(v)}
+		if s.absent && !strings.HasPrefix(s.label, "nil") {
+			s.label = "nil(" + s.label + ")"
+		}
+		f.syms = append(f.syms, s)
 	}
 	return f
+}
+
+// shortLabel abbreviates the canonical rendering of a chunk for use in case names (the three list messages
+// A, B, U are spelled out in listMsg).
+func shortLabel(s string) string {
+	for _, n := range []string{"A", "B", "U"} {
+		s = strings.ReplaceAll(s, render(listMsg(n)), "&Message{"+n+"}")
+	}
+	s = strings.ReplaceAll(s, "map[string]*Message", "map")
+	s = strings.ReplaceAll(s, "map[string]string", "map")
+	return s
 }
 
 func val[T any](v T) func() T { return func() T { return v } }
@@ -486,8 +495,8 @@ func families() []family {
 	nilReg := func(p *C14RegPtr) bool { return p == nil }
 	fs := []family{
 		simpleFamily[string]("string", strModel, 4, 5, nil, val(""), val("x"), val("y"), val("é")),
-		msgFamily("msg-base", true, 3, 4, baseAspects(true)),
-		msgFamily("msg-ids", false, 3, 4, idAspects(true)),
+		msgFamily("msg-base", true, 4, 5, baseAspects(true)),
+		msgFamily("msg-ids", false, 4, 5, idAspects(true)),
 		msgFamily("msg-meta", false, 3, 4, metaAspects(true)),
 		msgFamily("msg-extra", false, 3, 4, extraAspects(true)),
 		msgFamily("msg-tools", false, 3, 4, toolAspects(true)),
@@ -504,9 +513,31 @@ func families() []family {
 	}
 	// all five reduced aspects at once: pairs of chunks only (thorough tier)
 	fs = append(fs, msgFamily("msg-mix-all", false, 0, 2, red[0].a, red[1].a, red[2].a, red[3].a, red[4].a))
+	strMap := func(kv ...string) func() map[string]string {
+		return func() map[string]string {
+			m := map[string]string{}
+			for i := 0; i+1 < len(kv); i += 2 {
+				m[kv[i]] = kv[i+1]
+			}
+			return m
+		}
+	}
+	msgMap := func(kv ...string) func() map[string]*schema.Message {
+		return func() map[string]*schema.Message {
+			m := map[string]*schema.Message{}
+			for i := 0; i+1 < len(kv); i += 2 {
+				m[kv[i]] = listMsg(kv[i+1])
+			}
+			return m
+		}
+	}
 	fs = append(fs,
 		listFamily(),
 		mapFamily(),
+		simpleFamily[map[string]string]("map-of-string", mapStrModel, 3, 4, func(m map[string]string) bool { return m == nil },
+			func() map[string]string { return nil }, strMap(), strMap("a", "x"), strMap("a", "y"), strMap("a", ""), strMap("b", "x"), strMap("a", "x", "b", "y")),
+		simpleFamily[map[string]*schema.Message]("map-of-message", nil, 3, 4, func(m map[string]*schema.Message) bool { return m == nil },
+			func() map[string]*schema.Message { return nil }, msgMap(), msgMap("a", "A"), msgMap("a", "B"), msgMap("a", "-"), msgMap("a", "U"), msgMap("b", "B"), msgMap("a", "A", "b", "B")),
 		simpleFamily[C14Reg]("registered", nil, 4, 5, nil, val(C14Reg{}), val(C14Reg{S: "p"}), val(C14Reg{S: "q", N: 1}), val(C14Reg{N: 2}), val(C14Reg{Bad: true})),
 		simpleFamily[*C14RegPtr]("registered-ptr", nil, 4, 5, nilReg, val[*C14RegPtr](nil), func() *C14RegPtr { return &C14RegPtr{S: "p"} }, func() *C14RegPtr { return &C14RegPtr{S: "q"} }),
 		simpleFamily[C14Unreg]("unregistered", nil, 4, 5, nil, val(C14Unreg{}), val(C14Unreg{A: 1}), val(C14Unreg{A: 2})),
